@@ -73,6 +73,11 @@ def main(tier):
                 raise vlib.Inconclusive("%s: the model itself does not satisfy the property / refinement:\n%s" % (mod, res.out[-3000:]))
             run.add_model(res)
             run.extra.setdefault("models", []).append({"module": mod, "cfg": cfg, "distinct": res.distinct, "generated": res.generated})
+        # ---- the unbounded core (any number of clients, times and calls), proved with TLAPS
+        proved, nobl, pout = vlib.tlapm(wd, "ReplayCoreProof", timeout=900)
+        if not proved:
+            raise vlib.Inconclusive("TLAPS does not prove ReplayCoreProof (Spec => []AtMostOnce for the unbounded core):\n" + pout)
+        run.extra["tlaps"] = {"module": "ReplayCoreProof", "theorem": "Spec => []AtMostOnce (unbounded clients, times, calls)", "obligations_proved": nobl}
         # ---- histories from the real code
         seed = str(run.seed)
         jobs = [("seq", ["-len", "4" if not run.thorough else "5", "-sample", "300" if not run.thorough else "3000"]),
